@@ -828,7 +828,9 @@ def explore(fn, *, max_paths=20000, timeout_ms=30000, assumptions=(), stats: Sta
     while work:
         prefix = work.pop()
         if len(results) >= max_paths:
-            raise PathLimit(f"more than {max_paths} paths")
+            e = PathLimit(f"more than {max_paths} paths")
+            e.paths = results
+            raise e
         if deadline_s is not None and time.time() - t_start > deadline_s:
             raise PathLimit(f"exploration exceeded its {deadline_s}s budget after {len(results)} paths")
         eng = Engine(prefix, stats, timeout_ms=timeout_ms, assumptions=assumptions)
